@@ -70,7 +70,9 @@ put_optbuf(FILE *out, const uint8_t *buf, size_t used, int n) {
       fputs("BAD", out);
       return;
     }
-    vf_puthex(out, o.value, o.length);
+    fputc('=', out); /* so that one empty segment differs from no segment */
+    if (o.length)
+      vf_puthex(out, o.value, o.length);
     p += sz;
   }
 }
